@@ -151,6 +151,33 @@ int main(int argc, char **argv) {
                     
                      *gx::pick({576, 1500, 9216}), *gx::pick({0, 1}), *gx::pick({0, 0, 1, 2, 3})};
             c.blobs = {*gx::bytes(0, 40), *gx::bytes(0, 40), *gx::bytes(16, 16)};
+            // values that mean something elsewhere must still be encoded as they are: IANA interface types (24 = software loopback, 6, 71, 53, 131 ...)
+            if (*gx::chance(15)) c.cfg[1] = *gx::pick({1, 6, 23, 24, 24, 53, 71, 131, 144, 161, 209, 243});
+            // names that are well-formed UTF-8 with a multi-byte character straddling the 32-octet limit (the field is cut at 32 octets, not at a character)
+            if (*gx::chance(10)) {
+                auto utf8 = [&](size_t lead_ascii) {
+                    Bytes b(lead_ascii, 'h');
+                    static const std::vector<Bytes> chars = {{0xC3, 0xA9}, {0xE2, 0x82, 0xAC}, {0xF0, 0x9F, 0x98, 0x80}, {0xD0, 0x96}};
+                    while (b.size() < 40) { const Bytes &ch = chars[(b.size() + lead_ascii) % chars.size()]; b.insert(b.end(), ch.begin(), ch.end()); }
+                    b.resize(33 + (b.size() % 7));
+                    return b;
+                };
+                size_t lead = (size_t)*gx::range<int>(24, 31);
+                if (*gx::chance(50)) c.blobs[0] = utf8(lead); else c.blobs[1] = utf8(lead);
+            }
+            // attributes that coincide: the IPv6 address is the IPv4 address in v4-mapped / v4-compatible / 6to4 form, or the link-local address made from the hardware address
+            if (*gx::chance(10)) {
+                uint32_t v4 = (uint32_t)c.cfg[2];
+                Bytes v6(16, 0);
+                int form = *gx::range<int>(0, 3);
+                uint8_t q[4] = {(uint8_t)(v4 >> 24), (uint8_t)(v4 >> 16), (uint8_t)(v4 >> 8), (uint8_t)v4};
+                if (form == 0) { v6[10] = 0xFF; v6[11] = 0xFF; memcpy(&v6[12], q, 4); }
+                else if (form == 1) memcpy(&v6[12], q, 4);
+                else if (form == 2) { v6[0] = 0x20; v6[1] = 0x02; memcpy(&v6[2], q, 4); }
+                else { v6[0] = 0xFE; v6[1] = 0x80; uint64_t m = (uint64_t)c.cfg[10]; v6[8] = (uint8_t)((m >> 40) ^ 2); v6[9] = (uint8_t)(m >> 32); v6[10] = (uint8_t)(m >> 24); v6[11] = 0xFF; v6[12] = 0xFE; v6[13] = (uint8_t)(m >> 16); v6[14] = (uint8_t)(m >> 8); v6[15] = (uint8_t)m; }
+                c.blobs[2] = v6;
+                if (*gx::chance(50)) { std::reverse(q, q + 4); if (form == 0) memcpy(&c.blobs[2][12], q, 4); }   // ... in either byte order of the 32-bit value
+            }
             return c;
         });
         ok = run_cases(a, ev, "c04-tuples", a.n(100000, 2000000), 100, gen, run);
